@@ -42,7 +42,8 @@ def near_boundary(m, args, eps=1e-6):
                 continue
         except Exception:
             continue
-        if abs(x - round(x)) < eps:
+        # integers are the discontinuities of floor/ceil, half-integers those of round
+        if abs(2 * x - round(2 * x)) < eps:
             return True
     return False
 
@@ -56,10 +57,11 @@ def sample_models(pc, k, seed, away=()):
         s.add(p)
     if s.check() != z3.sat:
         return out
-    # prefer samples whose floor/round arguments are well inside a cell (fractional part in [0.2, 0.8])
+    # prefer samples whose floor/round arguments are well inside a cell (fractional part of 2x in [0.2, 0.8])
     s.push()
     for a in list(away)[:12]:
-        s.add(a - z3.ToReal(z3.ToInt(a)) >= z3.RealVal('1/5'), a - z3.ToReal(z3.ToInt(a)) <= z3.RealVal('4/5'))
+        fr = 2 * a - z3.ToReal(z3.ToInt(2 * a))
+        s.add(fr >= z3.RealVal('1/5'), fr <= z3.RealVal('4/5'))
     if s.check() != z3.sat:
         s.pop()
     consts = None
